@@ -19,7 +19,7 @@ pub fn spec() -> Spec {
     Spec {
         prop: "C14",
         level: "exploration",
-        rule: "Laws evaluated on generated values of every persisted/served type (boundary-biased): decode(encode(v)) == v, consumed == produced length, decode(encode(a)||encode(b)) yields a then b, cmp(a,b) == cmp(encode(a),encode(b)) for numeric/composite keys (all pairs of a boundary set + random pairs), to_json(from_json(to_json(v))) == to_json(v). Generated values respect what the module itself can produce (constant legacy fields, chain id of the configuration). Non-trivial = value with >=1 non-default field; distinct by (type, shape class).",
+        rule: "Laws evaluated on generated values of every persisted/served type (boundary-biased): decode(encode(v)) == v, consumed == produced length, decode(encode(a)||encode(b)) yields a then b, cmp(a,b) == cmp(encode(a),encode(b)) for numeric/composite keys (all pairs of a boundary set + random pairs), to_json(from_json(to_json(v))) == to_json(v). Generated values respect what the module itself can produce (constant legacy fields, chain id of the configuration). Scale block (one shard in four): traces with 255..70 000 frames (wide, 1023 deep, bushy), 255..66 000 logs / transaction hashes / list elements, byte strings and strings of 255 B..16 MiB. Non-trivial = value with >=1 non-default field; distinct by (type, shape class).",
         assumptions: vec!["values are restricted to those the module's own constructors can produce (e.g. receipts always have type 0); arbitrary byte strings are not claimed to decode".into()],
         exhaustive: false,
         min_nontrivial: 2,
@@ -278,7 +278,17 @@ struct Laws<'a> {
 }
 
 impl<'a> Laws<'a> {
-    fn fail(&mut self, sig: &str, what: String, detail: serde_json::Value) {
+    fn fail(&mut self, sig: &str, what: String, mut detail: serde_json::Value) {
+        // values of the scale block are megabytes long: keep the witness readable
+        if let Some(o) = detail.as_object_mut() {
+            for v in o.values_mut() {
+                if let Some(t) = v.as_str() {
+                    if t.len() > 20_000 {
+                        *v = json!(format!("{}… ({} characters)", &t[..t.char_indices().nth(20_000).map(|(i, _)| i).unwrap_or(t.len())], t.len()));
+                    }
+                }
+            }
+        }
         super::common::violation(self.rep, "C14", self.seed, sig, what, detail);
     }
 
@@ -365,6 +375,61 @@ impl<'a> Laws<'a> {
     }
 }
 
+/// Scale block: collections and byte strings beyond one-byte and two-byte length boundaries and
+/// traces with thousands of frames (wide, deep, bushy).
+fn scale_values(laws: &mut Laws, g: &mut G, chain_id: u64) {
+    fn wide(g: &mut G, n: usize) -> TraceED {
+        let mut t = g.trace(0);
+        t.calls = (0..n).map(|_| g.trace(0)).collect();
+        t
+    }
+    fn deep(g: &mut G, n: usize) -> TraceED {
+        let mut t = g.trace(0);
+        for _ in 0..n {
+            let mut up = g.trace(0);
+            up.calls = vec![t];
+            t = up;
+        }
+        t
+    }
+    fn bushy(g: &mut G, depth: u32, fan: usize) -> TraceED {
+        let mut t = g.trace(0);
+        if depth > 0 {
+            t.calls = (0..fan).map(|_| bushy(g, depth - 1, fan)).collect();
+        }
+        t
+    }
+    for (name, a) in [("wide-255", wide(g, 255)), ("wide-256", wide(g, 256)), ("wide-1100", wide(g, 1100)), ("wide-70000", wide(g, 70_000)), ("deep-300", deep(g, 300)), ("deep-1023", deep(g, 1023)), ("bushy-4^6", bushy(g, 6, 4))] {
+        let b = g.trace(1);
+        laws.codec("TraceED", name, &a, &b, true);
+    }
+    for n in [255usize, 256, 300, 65_535, 65_536, 66_000] {
+        let mut a = g.receipt();
+        a.logs = (0..n).map(|_| g.log()).collect();
+        let b = g.receipt();
+        laws.codec("TxReceiptED", &format!("logs{}", n), &a, &b, true);
+        let hashes: Vec<B256ED> = (0..n).map(|_| g.b256()).collect();
+        let mut blk = g.block(false, chain_id);
+        blk.transactions = either::Either::Left(hashes);
+        let b = g.block(false, chain_id);
+        laws.codec("BlockResponseED", &format!("txs{}", n), &blk, &b, true);
+        let v: Vec<Option<Vec<u8>>> = (0..n).map(|i| if i % 7 == 0 { None } else { Some(vec![i as u8; i % 5]) }).collect();
+        laws.codec("Vec<Option<Vec<u8>>>", &format!("n{}", n), &v, &vec![None, Some(vec![1u8])], true);
+    }
+    for n in [255usize, 256, 65_535, 65_536, 70_000, 1_048_576, 16_777_216 + 5] {
+        let mut l = g.log();
+        l.data = g.r.bytes(n).into();
+        let b = g.log();
+        laws.codec("LogED", &format!("data{}", n), &l, &b, true);
+        let mut t = g.tx(chain_id);
+        t.input = g.r.bytes(n).into();
+        let b = g.tx(chain_id);
+        laws.codec("TxED", &format!("input{}", n), &t, &b, true);
+        let s: String = "x".repeat(n);
+        laws.codec("String", &format!("len{}", n), &s, &"y".to_string(), true);
+    }
+}
+
 pub fn worker(ctx: &WorkerCtx) -> WorkerReport {
     let (net, traces) = super::common::net_for_shard(ctx.shard);
     crate::setup_env(net, traces);
@@ -375,6 +440,9 @@ pub fn worker(ctx: &WorkerCtx) -> WorkerReport {
     {
         let mut laws = Laws { rep: &mut rep, seed: ctx.seed };
         let mut g = G { r: &mut rng };
+        if ctx.shard % 4 == 1 {
+            scale_values(&mut laws, &mut g, chain_id);
+        }
         for i in 0..rounds {
             let nt = |b: bool| if b { "nonzero" } else { "default" };
             let (a, b) = (g.u64b(), g.u64b());
